@@ -261,3 +261,36 @@ def reused_contexts(which: int, a: int, b: int, nested: bool) -> int:
         return 2
     finally:
         llogging.logging = real_logging
+
+
+
+@harness("C16", lemma="toggle-history", pre=["0 <= t0 <= 2", "0 <= t1 <= 2", "0 <= t2 <= 2"], example=dict(t0=1, t1=2, t2=0, a=1, derive=True),
+         timeout=300,
+         bounds="every sequence of 3 calls out of {none, enable_effects(), disable_effects()} on one dataset (balanced or not), then "
+                "an evaluation of it and of a with_options derivative made after the calls",
+         what="the per-dataset switch is a switch, not a counter: effects run iff the LAST call was not disable_effects(); the "
+              "value never changes")
+def toggle_history(t0: int, t1: int, t2: int, a: int, derive: bool) -> int:
+    effs = []
+    with untraced():
+        def body(x: int = Option("A")):
+            return ("v", x)
+
+        d = dataset.nocache(body, effects=[lambda v: effs.append(v)])
+    enabled = True
+    for t in (t0, t1, t2):
+        if t == 1:
+            d.enable_effects()
+            enabled = True
+        elif t == 2:
+            d.disable_effects()
+            enabled = False
+    target = d.with_options({"UNUSED": 1}) if derive else d
+    with llogging.disabled():
+        got = outcome(lambda: target({"A": a}))
+    note("toggle calls", (t0, t1, t2), "derived", derive, "got", got, "effects run", len(effs), "expected", enabled)
+    if got[0] != "ok" or not same(got[1], ("v", a)):
+        return 0
+    if (len(effs) == 1) != enabled or len(effs) > 1:
+        return 0
+    return 2
